@@ -10,6 +10,7 @@ import Driver.C11
 import Driver.C06
 import Driver.C19
 import Driver.C03
+import Driver.C14
 open Driver
 
 def dispatch (line : String) : String :=
@@ -29,6 +30,7 @@ def dispatch (line : String) : String :=
   | "monitor" :: args => C11.monitorOp args
   | "schedmon" :: args => C11.schedmonOp args
   | "depcheck" :: args => C20.depcheck args
+  | "flightlog" :: args => C14.flightlog args
   | "gitfold" :: args => C03.gitfold args
   | "c03states" :: args => C03.states args
   | "c03wf" :: args => C03.wf args
